@@ -12,7 +12,14 @@
    the pending damage.  (tickit_window_show exposes the window even when it is visible already,
    so a handler that shows window 2 on EVERY expose of window 1 leaves that damage after every
    flush -- re_repeats; in re_nonvacuous_overlap the second flush runs handlers that make no
-   calls.) *)
+   calls.)
+
+   re_close_nonvacuous: window 1 (2x2 at (1,1)) in front of window 2 (2x2 at (0,0), created
+   lowest); window 1's expose handler CLOSES window 1.  The first flush exposes window 1, which
+   leaves the child list while the list is being walked; window 2, the next entry, is still
+   exposed, and since window 1 is no longer a child its rectangle is not masked: window 2 and
+   the root repaint what window 1 drew.  The closed window's area is pending damage; the second
+   flush renders it. *)
 From Coq Require Import ZArith List Bool.
 From Tickit Require Import RectDefs WinRectSet WinDefs WinSpec WinHist WinC01Extra WinReDefs.
 Import ListNotations.
@@ -83,4 +90,31 @@ Lemma re_repeats :
   screen_ok ov_m2' = true /\ pending_ok ov_m2' = true /\
   r_damage (m_root ov_m2') = [mkRect 1 1 2 3] /\ r_nexp (m_root ov_m2') = true /\
   r_later (m_root ov_m2') = true.
+Proof. vm_compute. repeat split; reflexivity. Qed.
+
+(* case  W G 4 6 A RA 1 1 xc 1  N 1 0 1 1 2 2 0  N 2 0 0 0 2 2 2  F F  of the generated corpus *)
+Definition cl_racts : Z -> list ract := fun id => if id =? 1 then [RClose 1] else [].
+Definition cl_m0 : mstate :=
+  run no_defects paint_progs
+      [ONew 1 0 (mkRect 1 1 2 2) false false false false;
+       ONew 2 0 (mkRect 0 0 2 2) false true false false]
+      (m_init 4 6 pol_accept).
+Definition cl_m1 : mstate := step_re no_defects paint_progs cl_racts OFlush cl_m0.
+Definition cl_m2 : mstate := step_re no_defects paint_progs cl_racts OFlush cl_m1.
+
+Lemma re_close_nonvacuous :
+  (* before: window 1 in front of window 2 *)
+  map t_id (t_kids (r_tree (m_root cl_m0))) = [1; 2] /\
+  (* the first flush: window 2 IS exposed although window 1 left the child list mid-walk *)
+  map fst (m_xlog cl_m1) = [1; 2; 0] /\
+  map t_id (t_kids (r_tree (m_root cl_m1))) = [2] /\ map t_id (r_orphans (m_root cl_m1)) = [1] /\
+  r_damage (m_root cl_m1) = [mkRect 1 1 2 2] /\
+  r_nexp (m_root cl_m1) = true /\ r_later (m_root cl_m1) = true /\ r_fault (m_root cl_m1) = false /\
+  pending_ok cl_m1 = true /\
+  (* window 1 was not masked: window 2 and the root painted over what it drew *)
+  t_grid (m_term cl_m1) (1, 1) = m_app cl_m1 2 1 1 /\ t_grid (m_term cl_m1) (2, 2) = m_app cl_m1 0 2 2 /\
+  (* the second flush renders the closed window's area *)
+  map fst (m_xlog cl_m2) = [2; 0] /\
+  r_damage (m_root cl_m2) = [] /\ r_nexp (m_root cl_m2) = false /\ r_fault (m_root cl_m2) = false /\
+  pending_ok cl_m2 = true /\ screen_ok cl_m2 = true.
 Proof. vm_compute. repeat split; reflexivity. Qed.
